@@ -11,14 +11,14 @@ import z3
 from . import loader, envmodels
 from .common import Report, guarded, run_jobs
 from .explorer import explore, prove, satisfiable, Unsupported, EX
-from .hist import World, feed, msg_summary, eq_any, EVENTS, CLAIM, P_SINGLE, P_FAST, P_MULTI
+from .hist import World, feed, msg_summary, eq_any, EVENTS, CLAIM, P_SINGLE, P_FAST, P_MULTI, P_FMULTI, fm_frames
 from .proxies import SymInt
 
 PID = "C10"
 _G = {}
 IDS = {CLAIM: "isoAddressClaim", P_SINGLE: "vesselHeading", P_FAST: "dcDetailedStatus"}
 ENTRIES = [CLAIM, P_SINGLE, P_FAST, P_MULTI, 126992, "isoAddressClaim", "ISOADDRESSCLAIM", "vesselHeading", "vesselheading", "VESSELHEADING",
-           "dcDetailedStatus", "furunoHeave", "FurunoHeave", "noSuchId"]
+           "dcDetailedStatus", "furunoHeave", "FurunoHeave", "noSuchId", "furunoUnknown130820", "SIMNETREPROGRAMSTATUS"]
 
 
 def permitted(pgn, mid, mode, entries):
@@ -128,7 +128,9 @@ def run(tier, seed):
         configs += [(mode, pq) for pq in pairs]
     ev = EVENTS
     histories = [(("claim1", "a"), ("single", "a"), ("fast", "a"), ("multi_furuno", "a"), ("single", "b"), ("claim1", "b"), ("claim2", "a"), ("single", "a"), ("multi_other", "b")),
-                 (("fast_first", "a"), ("claim1", "a"), ("fast_last", "a"), ("single", "a"), ("unknown_pgn", "a"), ("multi_furuno", "a"))]
+                 (("fast_first", "a"), ("claim1", "a"), ("fast_last", "a"), ("single", "a"), ("unknown_pgn", "a"), ("multi_furuno", "a")),
+                 # two makers' variants of one fast-packet PGN on one stream, same sequence counter (filtered-out traffic must not disturb later results)
+                 (("fm_furuno", "a"), ("fm_simnet", "a"), ("fast", "a"), ("fm_furuno", "a"), ("single", "a"), ("fm_simnet", "a"))]
     if tier == "thorough":
         histories += [tuple(hh) for hh in itertools.product(ev, repeat=2)]
     rep.functions = ["decoder.NMEA2000Decoder.__init__", "decoder.split_pgn_list", "decoder._decode", "decoder._decode_fast_message",
@@ -140,7 +142,7 @@ def run(tier, seed):
     rep.outside = ["lists longer than 2 entries", "manufacturer filters (C11)"]
     nproc = 16
     jobs = [(configs[k::nproc], histories) for k in range(nproc)]
-    parts = run_jobs(rep, _worker, jobs, timeout_s=800)
+    parts = run_jobs(rep, _worker, jobs, timeout_s=800 if tier == "quick" else 4800)
     st = sum(p["states"] for p in parts if p and "states" in p)
     tr = sum(p["trans"] for p in parts if p and "trans" in p)
     rep.count("configurations", len(configs))
@@ -176,6 +178,8 @@ def replay(r):
             return [(CLAIM, r["name1" if kind == "claim1" else "name2"].to_bytes(8, "little"))]
         if kind == "unknown_pgn":
             return [(99999, bytes(8))]
+        if kind in ("fm_furuno", "fm_simnet"):
+            return [(P_FMULTI, bytes(fr)) for fr in fm_frames(kind)]
     mode, entries = r["mode"], r["entries"]
     kw = {"exclude_pgns": list(entries)} if mode == "exclude" else {"include_pgns": list(entries)}
     try:
